@@ -12,6 +12,7 @@ var typeIDs = func() map[reflect.Type]int {
 	for i := 0; i < NumTypes; i++ {
 		m[RType(i)] = i
 	}
+	m[RType(TSl)] = TSl
 	return m
 }()
 
@@ -141,7 +142,7 @@ func DropRegs(t *rapid.T, cfg *Config, pct int) []int {
 
 // CloneConfig deep-copies a configuration.
 func CloneConfig(c *Config) *Config {
-	o := &Config{Regs: make([]Reg, len(c.Regs)), PreBuild: c.PreBuild}
+	o := &Config{Regs: make([]Reg, len(c.Regs)), PreBuild: c.PreBuild, Ghosts: append([]Ghost(nil), c.Ghosts...)}
 	for i, r := range c.Regs {
 		r.Outs = append([]OutSpec(nil), r.Outs...)
 		r.Deps = append([]DepSpec(nil), r.Deps...)
